@@ -284,7 +284,7 @@ theorem lex_postings (C : Classes) (hC : ClassesOk C = true) (ps : List Posting)
     rw [lex_posting_line C hC hz p (hwf p (by simp)) ha',
       ih (jump_ls _ _ _ _) (fun q hq => hwf q (by simp [hq])) (jump_after _ _ _ _), jump_jump]
     simp only [postingsToks, jump_line, jump_off, printPostings, List.length_append, List.length_cons,
-      List.length_nil, List.append_assoc, List.cons_append, List.nil_append, List.singleton_append]
+      List.length_nil, List.append_assoc, List.cons_append, List.nil_append]
     rw [show z.before.length + (p.print.length + (0 + 1)) = z.before.length + p.print.length + 1 by omega,
       show 1 + ps.length = ps.length + 1 by omega]
 
